@@ -582,6 +582,24 @@ theorem Bootstrap.enableImage {m : Mem} {sb s : Nat} (h : Bootstrap m sb s) (sz 
 
 theorem M.get_bind {β : Type} (f : St → M β) (st : St) : (M.get >>= f) st = f st st := rfl
 
+/-- a write inside the SIRM does not re-route the bootstrap chain -/
+theorem Bootstrap.write_sirm {m : Mem} {sb s : Nat} (h : Bootstrap m sb s) (off v : Nat)
+    (ho : off + 4 ≤ SIRM_LEN) : Bootstrap (m.write (s + off) (toLE 4 v)) sb s := by
+  have ha := h.abrmDisjoint
+  have hb := h.sbrmDisjoint
+  simp only [ABRM_DEVICE_CAPABILITY, SIRM_LEN] at ha hb ho
+  refine ⟨by simpa using h.abrmMapped, ?_, h.sbrmSpace, by simpa using h.sbrmMapped, ?_, ?_,
+    h.abrmDisjoint, h.sbrmDisjoint⟩
+  · simp only [regVal]
+    rw [read_write32_ne _ _ _ _ _ (by simp only [ABRM_SBRM_ADDRESS]; omega)]
+    exact h.sbrmAddr
+  · simp only [regVal]
+    rw [read_write32_ne _ _ _ _ _ (by simp only [SBRM_U3VCP_CAPABILITY]; omega)]
+    exact h.sirmCap
+  · simp only [regVal]
+    rw [read_write32_ne _ _ _ _ _ (by simp only [SBRM_SIRM_ADDRESS]; omega)]
+    exact h.sirmAddr
+
 /-- `ControlHandle::sirm` with a warm cache: no device access. -/
 theorem getSirm_warm (d : Dev) (c : Option (Nat × Nat)) (s : Nat) :
     getSirm ⟨d, c, some s⟩ = (.ok s, ⟨d, c, some s⟩) := by
